@@ -129,11 +129,26 @@ class ValueGen(object):
                                (inner.get("occ") or {}).get("nillable", True))
             sizes = st.sampled_from(([] if self.full else [0]) + [1, 2, self.max_arr, self.max_arr]
                                     + ([12] if depth == 0 else []))
-            return sizes.flatmap(lambda n: st.lists(elem, min_size=n, max_size=n))
+            lst = sizes.flatmap(lambda n: st.lists(elem, min_size=n, max_size=n))
+            if inner["k"] == "ref":
+                lst = self._dup(lst)
+            return lst
         if k == "ref":
             names = self.subclasses(t["n"]) if self.poly else [t["n"]]
             return st.sampled_from(names).flatmap(lambda cn: self.obj(cn, t["n"], depth))
         raise ValueError(k)
+
+    def _dup(self, lst):
+        """sequences of objects in which the first object occurs again (the same value twice:
+        build.to_native turns equal objects into one shared instance)"""
+        def again(t):
+            l, where = t
+            if len(l) < 2 or l[0] is None or where == 0:
+                return l
+            l = list(l)
+            l[(where % (len(l) - 1)) + 1] = l[0]
+            return l
+        return st.tuples(lst, st.sampled_from([0, 0, 0, 1, 2, 3])).map(again)
 
     def _items(self, elem, nillable):
         if self.nil_items and nillable and not self.full:
@@ -144,11 +159,22 @@ class ValueGen(object):
         fields = self.all_fields(cname)
         d = {fn: self.value(ft, depth + 1) for fn, ft in fields}
 
-        def fin(x):
+        refs = [(fn, ft) for fn, ft in fields
+                if ft["k"] == "ref" and (ft.get("occ") or {}).get("max", 1) == 1]
+
+        def fin(t):
+            x, share = t
+            x = dict(x)
+            if share:
+                # two members of the same class holding the same object
+                for i, (fa, ta) in enumerate(refs):
+                    for fb, tb in refs[i + 1:]:
+                        if ta["n"] == tb["n"] and x.get(fa) is not None and x.get(fb) is not None:
+                            x[fb] = x[fa]
             o = {"f": {k: v for k, v in x.items() if v is not None}}
             o["$obj"] = cname
             return o
-        return st.fixed_dictionaries(d).map(fin)
+        return st.tuples(st.fixed_dictionaries(d), st.sampled_from([False, False, True])).map(fin)
 
     def value(self, t, depth=0):
         """value for a member/argument slot, honouring occurrence and nillability"""
@@ -168,6 +194,8 @@ class ValueGen(object):
             sizes = sorted(set(n for n in (mn, mn + 1, top, 2) if mn <= n <= top and n > 0))
             item = self._items(one, nil)
             lst = st.sampled_from(sizes).flatmap(lambda n: st.lists(item, min_size=n, max_size=n))
+            if t["k"] == "ref":
+                lst = self._dup(lst)
             if mn == 0 and not self.full:
                 return st.one_of(st.none(), lst, lst)
             return lst
